@@ -8,7 +8,7 @@ use proptest::prelude::*;
 fn params(tier: Tier) -> (usize, usize, usize, u32) {
     // (dense bound, plan-only bound, structured bound, structured cases)
     match tier {
-        Tier::Quick => (4096, 1 << 18, 1 << 18, 480),
+        Tier::Quick => (8192, 1 << 20, 1 << 19, 960),
         Tier::Thorough => (65536, 1 << 22, 1 << 21, 1600),
     }
 }
